@@ -266,27 +266,42 @@ func PrunePathValues(paths []*configapi.PathValue, leaveTopDeletedPaths bool) []
 	})
 
 	prunedPaths := make([]*configapi.PathValue, 0, len(sortedPaths))
-	deletingPrefix := ""
+	// Roots of the deleted sub-trees seen so far. A path sorts after each of its ancestors, so one
+	// pass is enough; sub-trees are matched at path element boundaries, never by text alone
+	// ("/a/b" must not cover "/a/bc" or "/a/b-x") and need not be contiguous in byte order.
+	deletedRoots := make([]string, 0)
 	for _, pv := range sortedPaths {
-		// If this path is marked as deleted and we're already not deleting this subtree, start deleting
-		if pv.Deleted && (len(deletingPrefix) == 0 || !strings.HasPrefix(pv.Path, deletingPrefix)) {
-			deletingPrefix = pv.Path
-
+		covered := false
+		for _, root := range deletedRoots {
+			if isInSubtree(pv.Path, root) {
+				covered = true
+				break
+			}
+		}
+		if covered {
+			continue
+		}
+		if pv.Deleted {
+			deletedRoots = append(deletedRoots, pv.Path)
 			// If we're asked to leave behind the top deleted node of a sub-tree, add it here
 			if leaveTopDeletedPaths {
 				prunedPaths = append(prunedPaths, pv)
 			}
+			continue
 		}
-
-		// If we're not currently deleting or if the node is not part of the sub-tree, add it and cancel deletion
-		// since we have left the sub-tree.
-		if len(deletingPrefix) == 0 || !strings.HasPrefix(pv.Path, deletingPrefix) {
-			prunedPaths = append(prunedPaths, pv)
-			deletingPrefix = ""
-		}
+		prunedPaths = append(prunedPaths, pv)
 	}
 
 	return prunedPaths
+}
+
+// isInSubtree reports whether path is root or lies below it: root followed by the start of a
+// child element ('/') or of a list key ('[').
+func isInSubtree(path string, root string) bool {
+	if !strings.HasPrefix(path, root) {
+		return false
+	}
+	return len(path) == len(root) || path[len(root)] == '/' || path[len(root)] == '['
 }
 
 // PrunePathMap produces a copy of the given path values map, with paths marked as deleted and their sub-paths removed.
